@@ -77,4 +77,46 @@ def discoverVersions (isDV : DynV → Bool) (r : SendResult) : SendResult :=
   | .failure a b => .failure a b
   | .error => .error
 
+/-! ### connection state of a Client (client.go: the fields `conn`, `e`, `d`) -/
+
+/-- `conn` = `c.conn != nil`; `codec` = `c.e` / `c.d` have been created (they are only ever created, never reset) -/
+structure CState where
+  conn : Bool
+  codec : Bool
+  deriving DecidableEq, Repr
+
+def CState.fresh : CState := ⟨false, false⟩
+
+/-- what a caller can do with a Client -/
+inductive COp where
+  /-- `Connect()`: `reached` = tls.Dial (TCP connect AND TLS handshake) succeeded -/
+  | connect (reached : Bool)
+  | close
+  /-- `Send(...)` / `DiscoverVersions(...)` -/
+  | send
+  deriving DecidableEq, Repr
+
+/-- observable result of an operation -/
+inductive COut where
+  | ok            -- nil error (for send: the exchange was attempted on an established connection)
+  | err           -- an error was returned
+  | panic         -- nil pointer dereference (c.e.Encode on a nil Encoder)
+  deriving DecidableEq, Repr
+
+/-- `c.conn, err = tls.Dial(...)` assigns nil on failure; the codec is created only after a successful dial;
+    `Close` is a no-op on a nil conn and otherwise resets `conn` (its own error, if any, is the transport's);
+    `Send` refuses when `conn == nil` and otherwise uses `c.e` -/
+def cstep (s : CState) : COp → CState × COut
+  | .connect true => (⟨true, true⟩, .ok)
+  | .connect false => (⟨false, s.codec⟩, .err)
+  | .close => (⟨false, s.codec⟩, .ok)
+  | .send => if !s.conn then (s, .err) else if !s.codec then (s, .panic) else (s, .ok)
+
+def crun : CState → List COp → CState × List COut
+  | s, [] => (s, [])
+  | s, op :: ops =>
+    let (s', o) := cstep s op
+    let (s'', os) := crun s' ops
+    (s'', o :: os)
+
 end Kmip.Client
